@@ -24,7 +24,7 @@ for i in ids:
         'evidence_file': '/verif/evidence/%s.json' % i,
         'replay_cmd_template': 'bin/check %s --replay {path}' % i,
         'engine': 'govc',
-        'level_claimed': {'category': 'proof', 'text': c['text'], 'design_ref': 'DESIGN.md section 4, ' + i},
+        'level_claimed': {'category': 'proof', 'text': c['text'], 'design_ref': 'DESIGN.md Part I.7 (built system) and section 4, ' + i},
         'level_note': c['note'],
         'technique': c.get('technique', 'contract-based deductive verification: weakest-precondition VCs over go/ssa of the real code, discharged by z3/cvc5'),
     })
@@ -41,7 +41,7 @@ m = {
     'engines': [{'name': 'govc', 'path': '/verif/cmd/govc', 'serves_properties': [c['property_id'] for c in checks],
                  'kind_free_text': 'VC generator over go/ssa (x/tools v0.29.0) with GVC contracts in //@ comments; obligations discharged by z3 5.1.0 / cvc5 1.0 / z3 4.8.12'}],
     'checks': checks,
-    'notes': 'See DESIGN.md. Contracts live in /repo/**/zz_contracts_verif.go (build tag verif), mirrored under /verif/contracts/mirror; assumed contracts for code outside /repo under /verif/contracts/assumed.',
+    'notes': 'See DESIGN.md Part I. Contracts live in /repo/**/zz_contracts*_verif.go (comment-only, build tag verif), mirrored under /verif/contracts/mirror; assumed contracts for code outside /repo under /verif/contracts/assumed; open findings in /verif/known-findings.json; seeded changes and results in /verif/seeded/RESULTS.md.',
     'not_applicable': na,
 }
 json.dump(m, open(os.path.join(root, 'MANIFEST.json'), 'w'), indent=1)
